@@ -33,7 +33,8 @@ class C04(Prop):
     pid = "C04"
     rule = ("edge lists produced by the real fast generator on random handshake-consistent sequences (70%) and hand-built ones with "
             "repeated pairs in both orientations, self-loops, zero-degree rows and N=0 (30%); forward, reverse and forward-again "
-            "conversions are all observed; non-trivial = at least 3 distinct vertex pairs and a zero-degree vertex or a repeated pair or "
+            "conversions are all observed; the sequence as a list of tuples or an (N, T) integer array, edited in place between the two "
+            "conversions in every fifth case; non-trivial = at least 3 distinct vertex pairs and a zero-degree vertex or a repeated pair or "
             "a self-loop; distinct = distinct edge list")
     assumptions = ["networkx 3.6 set-level semantics of add_nodes_from/add_edges_from/set_node_attributes/set_edge_attributes "
                    "(re-defined in Model/Network.lean, compared on every case)",
